@@ -446,9 +446,12 @@ class Sched:
                     self.now = max(self.now, obj.deadline)
                     obj.fired = True
                     # 4th field: did it fire while a parent thread was spawning workers (inside
-                    # the region the processes-management lock protects)?
+                    # the region the processes-management lock protects)?  Known without looking
+                    # at any stack when the exploration is scoped to that region (t_when);
+                    # sys._current_frames() is NOT consulted here: materialising the frames of
+                    # all threads was seen to keep a dropped executor alive (C20 false alarm)
                     self.trace.append(("T", obj.full, obj.label,
-                                       self._parent_in("_adjust_process_count"), self.now,
+                                       self.t_when == "_adjust_process_count", self.now,
                                        obj.proc.pid))
                     return obj
                 if kind == "K":
